@@ -509,6 +509,39 @@ func extractC20() *lean {
 	l.def("rawHTTPClientSites", "List String", leanStrList(raw), raw)
 	l.def("strictClientUsers", "List String", leanStrList(ctorUsers), ctorUsers)
 	l.def("flagSetLoaders", "List String", leanStrList(flagLoaders), flagLoaders)
+	// jsonld: the comparison of the allow-list filter; notary: the comparison of hasContractValidator
+	_, lu := parseFile("jsonld/ldutils.go")
+	var filterConds []string
+	for _, d := range lu.Decls {
+		if fd, ok := d.(*ast.FuncDecl); ok && fd.Name.Name == "LoadDocument" && fd.Recv != nil && len(fd.Recv.List) == 1 && exprString(fd.Recv.List[0].Type) == "filteredDocumentLoader" {
+			ast.Inspect(fd.Body, func(n ast.Node) bool {
+				if is, ok := n.(*ast.IfStmt); ok {
+					filterConds = append(filterConds, c20Cond(is.Cond))
+				}
+				return true
+			})
+		}
+	}
+	l.def("contextFilterConds", "List String", leanStrList(filterConds), filterConds)
+	_, nt0 := parseFile("auth/services/notary/notary.go")
+	var hcv []string
+	if fd := funcDecl(nt0, "hasContractValidator"); fd != nil {
+		ast.Inspect(fd.Body, func(n ast.Node) bool {
+			if is, ok := n.(*ast.IfStmt); ok {
+				hcv = append(hcv, c20Cond(is.Cond))
+			}
+			return true
+		})
+	}
+	l.def("hasContractValidatorConds", "List String", leanStrList(hcv), hcv)
+	var notaryAssigns []string // any rewriting of the configured validator list inside the notary
+	ast.Inspect(nt0, func(n ast.Node) bool {
+		if as, ok := n.(*ast.AssignStmt); ok && len(as.Lhs) == 1 && strings.HasSuffix(c20Cond(as.Lhs[0]), "ContractValidators") {
+			notaryAssigns = append(notaryAssigns, c20Cond(as.Lhs[0]))
+		}
+		return true
+	})
+	l.def("notaryValidatorListRewrites", "List String", leanStrList(notaryAssigns), notaryAssigns)
 	// notary: how IRMA's production mode is derived
 	_, nt := parseFile("auth/services/notary/notary.go")
 	var irmaProd []string
